@@ -8,6 +8,7 @@ from harness import common as C
 
 ID = 'C13'
 PROPS_V = 'C13/Props.v'
+COQCHK = 'norec'   # closure rests on Reals (and Interval): full coqchk takes tens of minutes
 LEVEL = 'proof'
 TRUSTED = [
     'hand-written Gallina model C13/Model.v of flegendre/fchebyshev/fpoly/fchebyshev_split/func_fit/TraceSet '
@@ -21,7 +22,7 @@ TRUSTED = [
 ASSUMPTIONS = [
     'float64 inputs only (integer or float32 abscissa arrays make the basis functions truncate/round: dtype follows x)',
     'orders 1..12 (degrees 0..11), abscissae in [-1,1] for the basis comparison; tolerance 1e-9 absolute',
-    'fitting problems are generated well conditioned (cond(alpha) < 1e6, distinct abscissae, >= as many good points as '
+    'fitting problems are generated well conditioned (cond(alpha) < 1e5, distinct abscissae, >= as many good points as '
     'free parameters when a parameter is fixed); agreement with the exact model is required at 1e-7 relative',
     'weights are >= 0 (negative invvar is used as a weight by the code but not counted as a good point)',
     'TraceSet rejection loop: djs_reject is called without lower/upper/maxdev, so no point is ever rejected and '
@@ -199,13 +200,13 @@ def gen_fit_problem(rng, kind):
 def gen_fit(ctx):
     rng = ctx.rng
     calls = []
-    plan = [('plain', 8, 60), ('nowgt', 4, 30), ('zeros', 10, 80), ('fixed', 14, 120), ('few', 5, 40), ('one', 2, 10),
-            ('none', 2, 10), ('ifunc', 4, 30), ('exact', 8, 60)]
+    plan = [('plain', 8, 150), ('nowgt', 4, 60), ('zeros', 10, 200), ('fixed', 14, 300), ('few', 5, 100), ('one', 2, 20),
+            ('none', 2, 20), ('ifunc', 4, 80), ('exact', 8, 150)]
     for kind, q, t in plan:
         for _ in range(ctx.n(q, t)):
             calls.append(('fit-' + kind, gen_fit_problem(rng, kind)))
     # zero-weight independence: the same problem twice, data at zero-weight points changed
-    for _ in range(ctx.n(8, 60)):
+    for _ in range(ctx.n(8, 150)):
         base = gen_fit_problem(rng, rng.choice(['zeroindep', 'zeroindep', 'fixed']))
         if base['w'] is None or all(v > 0 for v in base['w']):
             base = gen_fit_problem(rng, 'zeroindep')
@@ -219,7 +220,7 @@ def gen_fit(ctx):
 def gen_trace(ctx):
     rng = ctx.rng
     calls = []
-    for k in range(ctx.n(16, 120)):
+    for k in range(ctx.n(16, 300)):
         for _attempt in range(200):
             func = rng.choice(['legendre', 'chebyshev', 'poly'])
             ncoeff = rng.randint(1, 4)
@@ -285,7 +286,7 @@ def xnorm_fr(xmin, xmax, jump, x):
 def gen_eval(ctx):
     rng = ctx.rng
     calls = []
-    for k in range(ctx.n(24, 200)):
+    for k in range(ctx.n(24, 500)):
         func = rng.choice(['legendre', 'chebyshev', 'poly'])
         nt = rng.randint(1, 4)
         nc = rng.randint(1, 6)
@@ -404,7 +405,14 @@ def correspond(ctx, proof_ok=True):
     # ---- direct behavioural checks on the real code
     nd = 0
     for ci, ((tag, c), r) in enumerate(zip(calls, results)):
-        if c['f'] != 'fit' or 'ok' not in r:
+        if c['f'] != 'fit':
+            continue
+        if 'ok' not in r:
+            if r.get('err') != 'nonfinite':   # (non-finite output is already reported above)
+                nd += 1
+                direct.append(('C13:fit:%s:impl=%s' % (c['func'], r.get('err')),
+                               'func_fit raised %s (%s) on a well-posed fitting problem' % (r.get('err'), r.get('msg', '')),
+                               {'kind': 'failing-input', 'call': public(c), 'impl_result': r}))
             continue
         res = r['ok']['res']
         if not r.get('inputs_unchanged', True):
@@ -468,8 +476,7 @@ def correspond(ctx, proof_ok=True):
     seen = set()
     for ci, t, v in bad:
         tag, c = calls[ci]
-        sig = 'C13:%s:%s:%s' % (tag.split('-')[0] + ('-' + tag.split('-')[1] if c['f'] in ('fit', 'trace') and '-' in tag else ''),
-                                c.get('func'), 'property' if v & 2 else 'model')
+        sig = 'C13:%s:%s:%s' % (c['f'], c.get('func'), 'property' if v & 2 else 'model')
         if sig in seen:
             continue
         seen.add(sig)
